@@ -352,6 +352,74 @@ def nearest_rule(rep):
     rep.floor("C12.g", n, 2)
 
 
+def charref_rule(rep, f):
+    rep.rule("C12.h", "character references name code points, not UTF-16 code units: every function of XMLFormatter / "
+             "DOMLSSerializerImpl that turns source characters into `&#x...;` references (calls writeCharRef, or formats with "
+             "binToText radix 16 behind an `&#x` prefix) tests for surrogates (a comparison with 0xD800) before formatting — a "
+             "surrogate half written as its own reference is not a legal character reference, the output does not parse")
+    builders = {}
+    for x in f.kind("call"):
+        fn = x["_fn"]
+        if fn.get("cls") not in ("XMLFormatter", "DOMLSSerializerImpl"):
+            continue
+        c = x["x"]
+        short = c[1].split("::")[-1]
+        if short == "writeCharRef" and fn["q"] != c[1]:
+            builders.setdefault(fn["q"], fn)
+        if short == "binToText" and len(c[3]) >= 4 and c[3][3] == ["i", 16] and not fn["q"].endswith("::writeCharRef") \
+                and any(a["rhs"] == ["g", "chPound"] for a in fn["_facts"] if a["k"] == "asg"):
+            builders.setdefault(fn["q"], fn)      # hex digits behind an `&#` prefix (not a hex number in an error message)
+    # XMLFormatter::formatBuf writes a reference only in the default branch of its switch over the characters of the active
+    # escape table (CR and other controls): those are single BMP code units by construction of gEscapeChars (rule C12.a)
+    builders.pop("XMLFormatter::formatBuf", None)
+    if len(builders) < 2:
+        raise AnalysisBroken("character-reference builders not found (%s)" % sorted(builders))
+    tus = sorted({os.path.join(core.REPO, fn["file"]) for fn in builders.values()})
+    g = core.run_xa(tus, st="^(" + "|".join(re.escape(q) for q in builders) + ")$", flat=False)
+    for q in sorted(builders):
+        ok = False
+        for st in g.sts.get(q, []):
+            if any(isinstance(x, list) and len(x) >= 2 and x[0] == "i" and x[1] == 0xD800 for x in sx_walk(st["body"])):
+                ok = True
+        rep.ob("C12.h", q, ok, "recombines surrogate pairs before writing a reference" if ok else
+               "%s writes a character reference for each UTF-16 code unit without testing for surrogates: a supplementary-plane "
+               "character becomes two invalid references (&#xD83D;&#xDE00;)" % q, builders[q]["file"])
+
+
+def split_rule(rep):
+    rep.rule("C12.i", "splitting a CDATA section loses no character: in DOMLSSerializerImpl::procCdataSection the read cursor moves "
+             "forward by exactly the length of the piece handed to the section writer (recognised forms: `copyNString(piece, cur, "
+             "K) ... cur += K`, or the cut `*(cur + A) = 0` with `next = cur + A + B; cur = next`, where B must be 0) — the "
+             "re-parsed character data must equal the original up to the division into sections")
+    g = core.run_xa([os.path.join(core.REPO, SER)], st=r"^DOMLSSerializerImpl::procCdataSection$", flat=False)
+    body = g.st("DOMLSSerializerImpl::procCdataSection")["body"]
+    nodes = [x for x in sx_walk(body) if isinstance(x, list) and x]
+    adv = [x for x in nodes if x[0] == "b" and x[1] == "+=" and x[2][0] == "l"]
+    copies = [x for x in nodes if x[0] == "c" and x[1] == "XMLString::copyNString" and len(x[3]) == 3]
+    where = SER
+    if adv and copies:
+        cur, K = adv[0][2], adv[0][3]
+        ok = any(c[3][1] == cur and c[3][2] == K for c in copies)
+        rep.ob("C12.i", "procCdataSection", ok, "cursor advances by the length of the piece written (%s)" % sx_str(K) if ok else
+               "procCdataSection advances %s by %s but writes a piece of a different length: characters of the value are skipped or "
+               "written twice" % (sx_str(cur), sx_str(K)), where)
+        return
+    # the cut-and-skip form
+    cuts = [x for x in nodes if x[0] == "b" and x[1] == "=" and x[2][0] == "u" and x[2][1] == "*" and x[3][0] in ("g", "i")
+            and x[2][2][0] == "b" and x[2][2][1] == "+"]
+    nexts = [x for x in nodes if x[0] == "b" and x[1] == "=" and x[2][0] == "l" and x[3][0] == "b" and x[3][1] == "+"
+             and x[3][2][0] == "b" and x[3][2][1] == "+"]
+    if cuts and nexts:
+        A = cuts[0][2][2]              # cur + A
+        N = nexts[0][3]                # (cur + A) + B
+        if N[2] == A:
+            rep.ob("C12.i", "procCdataSection", False,
+                   "procCdataSection cuts the piece at %s but continues reading at %s: the %s characters in between (the `]]>` itself) "
+                   "are dropped from the output" % (sx_str(A), sx_str(N), sx_str(N[3])), where)
+            return
+    raise AnalysisBroken("procCdataSection: neither of the modelled splitting forms found")
+
+
 def run(rep):
     f = core.library_facts()
     g = core.run_xa([os.path.join(core.REPO, SER), os.path.join(core.REPO, FMT)],
@@ -362,6 +430,8 @@ def run(rep):
     dispatch_rule(rep, f)
     mode_rule(rep, f, g)
     nearest_rule(rep)
+    charref_rule(rep, f)
+    split_rule(rep)
     eaten_rule(rep, f, "C12.f", lambda fn: fn.get("cls") in ("XMLFormatter", "DOMLSSerializerImpl"))
     diag.run(rep, f, "C12")
     rep.undecided += ["round-trip equality (isEqualNode) and idempotence of serialisation: value-level",
